@@ -5,7 +5,14 @@ the buffer, loop fuel is never the reason of a failure when items consume input,
 accepted values are well-shaped).  The memory safety of the compiled C is a
 runtime fact: it is OBSERVED here with ASan+UBSan+LSan and an allocation ledger
 on mutated inputs, not proved (claim level: partial).
-Tie, two layers:
+Tie, four layers:
+ (leaf layer) the four functions that skip what an extensible type does not know (ber_skip_length,
+   uper_open_type_skip, oer_open_type_skip, xer_skip_unknown) through harness/leafdrv_c04.inc against
+   coq/Rt/SafetySkip.v: well-formed nested TLVs / open types cut at every offset and damaged.
+ (extensible-type layer) families of extensible SEQUENCE / SET / CHOICE, plain and nested (lib/c04_ext.py):
+   what a newer member of the family wrote is read by every member, in every syntax, cut at every offset,
+   with `d4x`: three decodes per input (exact-size poisoned block, then 32 octets 00 / ff behind the input:
+   the answer may not depend on them).
  (model layer) modules of the modelled algebra (lib/modgen.py): valid DER / UPER /
    OER / XER encodings of generated values are mutated (lib/c04_util.py) and fed
    to the C decoders through `d4` (harness/moddrv_c04.inc: exact-size poisoned
@@ -605,7 +612,7 @@ def ext_layer(run, rng, tier, model):
                             put(rt, sy, kind, data, U, it, strict)
         jobs.append((m, lines, metas))
     tlog("ext: %d lines generated" % sum(len(j[1]) for j in jobs))
-    cres = run_many([(m["exe"], lines) for m, lines, metas in jobs], timeout=(150 if tier == "quick" else 1500))
+    cres = run_many([(m["exe"], lines) for m, lines, metas in jobs], timeout=(150 if tier == "quick" else 1500), max_deaths=40)
     tlog("ext: C side done, %d process deaths" % sum(len(e) for o, e in cres))
     for (m, lines, metas), (outs, errs) in zip(jobs, cres):
         taint = reencode_taint(m)
@@ -641,7 +648,7 @@ def leaf_layer(run, rng, tier, model):
     cases = XE.leaf_cases(rng, tier)
     lines = [c[0] for c in cases]
     cdrv = build_leafdrv()
-    (co, ce), = run_many([(cdrv, lines)], per_chunk=400)
+    (co, ce), = run_many([(cdrv, lines)], per_chunk=400, max_deaths=40)
     mo = model_par(model, lines)
     tlog("leaf: %d lines through both sides, %d process deaths" % (len(lines), len(ce)))
     for i, ((line, kind, exp), c, mm) in enumerate(zip(cases, co, mo)):
@@ -750,12 +757,13 @@ def main(tier):
     tb = ["Coq 8.16.1 kernel; vm_compute only for the Example witnesses", "axioms under Print Assumptions: " + (", ".join(sorted(axioms)) or "none (Closed under the global context)"),
           "extraction: ExtrOcamlBasic only; OCaml 4.13.1; the model runs with a 64 MB stack (EXN Stack overflow = no statement)",
           "lib/modgen.py (generator, independent X.680 tagging), lib/widegen.py, lib/c04_util.py (mutators; BER walker used by the finding predicates)",
-          "harness/moddrv.c + harness/moddrv_c04.inc: exact-size poisoned input buffer, allocation ledger by --wrap=malloc/calloc/realloc/free, ITIMER_VIRTUAL hang guard (2 s CPU)",
+          "harness/moddrv.c + harness/moddrv_c04.inc: exact-size poisoned input buffer, allocation ledger by --wrap=malloc/calloc/realloc/free, ITIMER_VIRTUAL hang guard (2 s CPU); d4x: two more decodes with 32 octets behind the input",
+          "lib/c04_ext.py + lib/extgen.py (families of extensible types, wrappers' DER derived from the model's DER of the plain member, leaf case generator with answers known by construction), harness/leafdrv_c04.inc",
           "gcc 12 -O1 with ASan + UBSan + LSan: memory safety / UB / leaks of the C are OBSERVED on the generated inputs, not proved"]
     return run.finish("proof", (nthm, ndis), trusted_base=tb,
                       checker_cmd="make -C /verif all && coqc -Q coq A1 coq/Props/Properties_C04.v",
-                      extra_cov={"theorems": names, "modules": len(mods), "wide_modules": len(wmods),
-                                 "rule": "one case = one `d4` command (type, syntax, input octets); inputs are distinct per (type, syntax); mutants of valid DER/UPER/OER/XER encodings (truncation at every offset, tag/length octet bit flips, length forms, re-framings, splice, text damage), random strings, deep-nesting inputs",
+                      extra_cov={"theorems": names, "modules": len(mods), "wide_modules": len(wmods), "ext_modules": len(xmods), "leaf_lines": nleaf,
+                                 "rule": "one case = one `d4` / `d4x` command (type, syntax, input octets) or one leaf command (skiplen / uskip / oskip / xskip / xskiprun); inputs are distinct per (type, syntax); mutants of valid DER/UPER/OER/XER encodings (truncation at every offset, tag/length octet bit flips, length forms, re-framings, splice, text damage), random strings, deep-nesting inputs; extensible-type layer: every encoding of a newer family member read by every member, every prefix, frame cuts, end-of-contents damage",
                                  "traces_validated_against_impl": run.cov["evaluations"]},
                       assumptions=["PARTIAL: the theorems are about the Gallina reference decoders (consumed accounting, bounds, fuel, shape); memory safety, UB-freedom and leak-freedom of the compiled C are observed with sanitizers on the mutated inputs only",
                                    "the C accepting what the reference rejects (lenient decoding) is counted, not judged; XER and the wide algebra have no model (survival / consistency only)",
